@@ -99,8 +99,7 @@ def fastpath_guard_ok(ctx):
     return f, res
 
 
-def rule_r1(ctx):
-    rid = "C04.R1"
+def rule_r1(ctx, rid="C04.R1"):
     ctx.r.rule(rid, "every access to output state holds the output lock along its call chain (or: constructor / guarded unlocked fast path of the I/O thread)")
     p = ctx.p
     lk = get_locks(p)
